@@ -1,4 +1,4 @@
-package mast
+package s3
 
 // Harness vocabulary: symbolic side. These functions have no bodies; the
 // engine intercepts calls to them. The native side is verif_native.go.
